@@ -553,9 +553,8 @@ def form_pointer_oracle(line, out):
         return None
     # a </form> end tag processed before the start tag sets the pointer to null: the next <form> is then inserted
     form_end = E("form").split("@")[0]
-    first_start = next((i for i, t in enumerate(toks) if t.startswith(S("form")[:len(S("form")) - 4])), None)
-    if first_start is None or any(t.startswith(form_end[:len(form_end) - 4]) for t in toks[:first_start]):
-        return None
+    if any(t.startswith(form_end[:len(form_end) - 4]) for t in toks):
+        return None      # (anywhere: an ignored <form>, then </form>, then <form> does create an element)
     # the harness creates the context element and the pointed-to form before the parser starts (`…;doc;` = get_document)
     if FORM_CE in out.partition(";doc;")[2]:
         return "a form element was created although the fragment parser was given a form element pointer and no template is open"
